@@ -43,7 +43,7 @@ use std::sync::{Arc, Mutex};
 use std::time::Duration;
 use tokio::sync::{Barrier, Notify};
 
-const RULE: &str = "cases: 1..6 registered records (printable ASCII without space, some multi-byte UTF-8, length 1..60, boundary lengths 24/25, arbitrary addresses, sometimes the server's own stand-in names) + 1..6 client machines issuing 1..8 lookups each (repeated, concurrent, same instant) over ARP or static MACs, every frame delayed by a seeded planner (0..dmax us; no loss); paused-clock current_thread runtime, one worker process per batch; a few cases look up an unregistered or delimiter-carrying name (outside the property; compared with the model only) or talk to a rogue responder (wrong id / wrong name); non-trivial = >= 2 lookups that missed, >= 1 cache hit and >= 2 clients or a reordered reply; distinct = hash of the op lines";
+const RULE: &str = "cases: 1..6 registered records (printable ASCII without space, some multi-byte UTF-8, length 1..60, boundary lengths 24/25, arbitrary addresses, sometimes the server's own stand-in names; 2 of 5 cases register a CONFUSABLE set instead: 2..5 different names derived from one base — letter case only (ASCII and Unicode), trailing/leading dot, one byte changed or swapped, one a prefix of the other, first/last byte replaced by the delimiter's neighbours 0x1f/0x21 or a control byte, variations of the stand-in names — each with its own address, every one looked up) + 1..6 client machines issuing 1..8 lookups each (repeated, concurrent, same instant) over ARP or static MACs, every frame delayed by a seeded planner (0..dmax us; no loss); paused-clock current_thread runtime, one worker process per batch; a few cases look up an unregistered or delimiter-carrying name (outside the property; compared with the model only) or talk to a rogue responder (wrong id / wrong name); non-trivial = >= 2 lookups that missed, >= 1 cache hit and >= 2 clients or a reordered reply; distinct = hash of the op lines";
 
 const SERVER_ADDR: [u8; 4] = [1, 3, 3, 7];
 /// records `DnsServer::start` inserts itself (checked against the source by tools/extract.py ->
@@ -670,6 +670,12 @@ fn analyse(case: &Case, ob: &Observed, rep: &mut CaseReport) {
     // echo: the reply consumed on a socket carries id and name of the query sent from it
     if case.rogue == "none" {
         for q in &qs {
+            // a query made for a name that carries the delimiter is outside the property (the wire
+            // format cannot carry such a name: the server parses the datagram misaligned and echoes
+            // what it parsed, which the model predicts byte for byte); judged by the model stream only
+            if lks.values().any(|l| l.client == q.client && l.port == Some(q.port) && has_delim(&l.name)) {
+                continue;
+            }
             if let Some(r) = &q.reply {
                 match split_reply(r) {
                     Some((id, qn, an, _)) => {
@@ -735,6 +741,40 @@ fn analyse(case: &Case, ob: &Observed, rep: &mut CaseReport) {
     for (nm, _) in &case.records {
         rep.count(format!("namelen.{}", match nm.len() { 0..=23 => "<24", 24 => "24", 25 => "25", 26..=40 => "26-40", _ => ">40" }));
     }
+    // measured: which kinds of confusable pairs the record set holds (names with different addresses)
+    {
+        let mut kinds: Vec<&str> = vec![];
+        let recs: Vec<(&Vec<u8>, [u8; 4])> = registered.iter().map(|(k, v)| (k, *v)).collect();
+        for (i, (a, aa)) in recs.iter().enumerate() {
+            for (b, ba) in recs.iter().skip(i + 1) {
+                if aa == ba {
+                    continue;
+                }
+                let (sa, sb) = (String::from_utf8_lossy(a).to_string(), String::from_utf8_lossy(b).to_string());
+                let before = kinds.len();
+                if a.eq_ignore_ascii_case(b) {
+                    kinds.push("pair.ascii_case");
+                } else if sa.to_lowercase() == sb.to_lowercase() {
+                    kinds.push("pair.unicode_case");
+                }
+                let (short, long) = if a.len() <= b.len() { (a, b) } else { (b, a) };
+                if long.starts_with(short) {
+                    kinds.push(if long.len() == short.len() + 1 && long.last() == Some(&b'.') { "pair.trailing_dot" } else { "pair.prefix" });
+                }
+                if a.len() == b.len() && a.iter().zip(b.iter()).filter(|(x, y)| x != y).count() == 1 {
+                    kinds.push(if a[..a.len() - 1] == b[..b.len() - 1] { "pair.last_byte" } else if a[1..] == b[1..] { "pair.first_byte" } else { "pair.one_byte" });
+                }
+                if kinds.len() > before && BUILTIN.iter().any(|x| x.0.as_bytes() == &a[..] || x.0.as_bytes() == &b[..]) {
+                    kinds.push("pair.with_standin");
+                }
+            }
+        }
+        kinds.sort();
+        kinds.dedup();
+        for k in kinds {
+            rep.count(format!("records.{}", k));
+        }
+    }
     if reordered {
         rep.count("reordered_replies");
     }
@@ -789,10 +829,174 @@ fn gen_name(rng: &mut Rng, long_ok: bool) -> Vec<u8> {
     (0..len).map(|_| rng.range(0x21, 0x7e) as u8).collect()
 }
 
+fn pick_opt(rng: &mut Rng, v: &[usize]) -> Option<usize> {
+    if v.is_empty() {
+        None
+    } else {
+        Some(v[rng.below(v.len() as u64) as usize])
+    }
+}
+
+/// A name that is easily confused with `base` but is a different name (different bytes): the
+/// property says each registered name resolves to ITS address, so a server that identifies two of
+/// these (case folding, trimming, prefix matching, normalising, truncating) answers one of them
+/// with the other's record.  `None` when the drawn variation does not apply to this name.
+fn confusable_variant(rng: &mut Rng, base: &[u8]) -> Option<Vec<u8>> {
+    let s = String::from_utf8(base.to_vec()).ok()?;
+    let ascii_letters: Vec<usize> = (0..base.len()).filter(|i| base[*i].is_ascii_alphabetic()).collect();
+    let ascii_pos: Vec<usize> = (0..base.len()).filter(|i| base[*i].is_ascii()).collect();
+    let bounds: Vec<usize> = (1..s.len()).filter(|i| s.is_char_boundary(*i)).collect();
+    let mut v = base.to_vec();
+    match rng.below(16) {
+        // ---- letter case only ----
+        0 => v = s.to_ascii_uppercase().into_bytes(),
+        1 => v = s.to_ascii_lowercase().into_bytes(),
+        2 => {
+            let i = *ascii_letters.first()?;
+            v[i] ^= 0x20;
+        }
+        3 => {
+            let i = pick_opt(rng, &ascii_letters)?;
+            v[i] ^= 0x20;
+        }
+        // Unicode case (é / É, ß / SS …)
+        4 => v = if rng.chance(1, 2) { s.to_uppercase() } else { s.to_lowercase() }.into_bytes(),
+        // ---- trailing / leading dot ----
+        5 | 6 => {
+            if v.last() == Some(&b'.') {
+                v.pop();
+            } else {
+                v.push(b'.');
+            }
+        }
+        7 => v.insert(0, b'.'),
+        // ---- one character differs ----
+        8 => {
+            let i = pick_opt(rng, &ascii_pos)?;
+            v[i] = rng.range(0x21, 0x7e) as u8;
+        }
+        // neighbouring code: l/1, O/0, m/n …
+        9 => {
+            let i = pick_opt(rng, &ascii_pos)?;
+            v[i] = if v[i] < 0x7e && rng.chance(1, 2) { v[i] + 1 } else { v[i].wrapping_sub(1) };
+        }
+        // ---- one a prefix of the other ----
+        10 => {
+            let k = pick_opt(rng, &bounds)?;
+            v.truncate(k);
+        }
+        11 => v.push(rng.range(0x21, 0x7e) as u8),
+        12 => {
+            let suffixes: [&[u8]; 6] = [b".com", b".local", b"x", b"-1", b"0", b".example"];
+            let sfx: &[u8] = *rng.pick(&suffixes[..]);
+            v.extend_from_slice(sfx);
+        }
+        // ---- equal up to the byte next to the delimiter (0x20) on the wire ----
+        13 => {
+            // last byte of the name: the delimiter's neighbours in value, and control bytes
+            let last = v.len() - 1;
+            let b = *rng.pick(&[0x21u8, 0x1f, 0x7f, 0x00, 0x22, 0x5f]);
+            if v[last].is_ascii() && rng.chance(1, 2) {
+                v[last] = b;
+            } else {
+                v.push(b);
+            }
+        }
+        14 => {
+            // first byte of the name (the byte next to the header)
+            let b = *rng.pick(&[0x21u8, 0x1f, 0x00, 0x01]);
+            if v[0].is_ascii() && rng.chance(1, 2) {
+                v[0] = b;
+            } else {
+                v.insert(0, b);
+            }
+        }
+        // two characters swapped
+        _ => {
+            if ascii_pos.len() < 2 {
+                return None;
+            }
+            let i = rng.below(ascii_pos.len() as u64 - 1) as usize;
+            v.swap(ascii_pos[i], ascii_pos[i + 1]);
+        }
+    }
+    if v.is_empty() || v == base || has_delim(&v) || String::from_utf8(v.clone()).is_err() {
+        return None;
+    }
+    Some(v)
+}
+
+/// A set of 2..5 pairwise different names that are confusable with each other (chains of
+/// variations of one base name), each with an address of its own.
+fn gen_confusable_records(rng: &mut Rng, long_ok: bool) -> Vec<(Vec<u8>, [u8; 4])> {
+    let cap = if long_ok { 60 } else { 24 };
+    let base: Vec<u8> = match rng.below(10) {
+        // the stand-in names of DnsServer::start
+        0 | 1 => BUILTIN[rng.below(2) as usize].0.as_bytes().to_vec(),
+        2 | 3 => {
+            let pool: [&[u8]; 11] = [b"Mail.example", b"mail.example", b"a", b"Ab", b"host-1.lan", b"WWW.Example.COM", b"xn--nme-5ia.test", "é.example".as_bytes(), "Straße.de".as_bytes(), b"a.b", b"Z"];
+            rng.pick(&pool).to_vec()
+        }
+        4 => {
+            // at the recv(80) boundary: variations shorter, equal and longer than 24 / 25 bytes
+            let mut v: Vec<u8> = (0..if long_ok { rng.range(23, 25) } else { rng.range(22, 23) }).map(|_| rng.range(b'a' as u64, b'z' as u64) as u8).collect();
+            v[0] = b'K';
+            v
+        }
+        _ => {
+            // a random name with at least one letter in it
+            let mut v = gen_name(rng, false);
+            v.truncate(20);
+            while String::from_utf8(v.clone()).is_err() {
+                v.pop();
+            }
+            if v.is_empty() || !v.iter().any(|b| b.is_ascii_alphabetic()) {
+                v.push(rng.range(b'a' as u64, b'z' as u64) as u8);
+            }
+            v
+        }
+    };
+    let want = rng.range(2, 5) as usize;
+    let mut names = vec![base];
+    let mut tries = 0;
+    while names.len() < want && tries < 200 {
+        tries += 1;
+        let from = rng.pick(&names).clone();
+        if let Some(v) = confusable_variant(rng, &from) {
+            if v.len() <= cap && !names.contains(&v) {
+                names.push(v);
+            }
+        }
+    }
+    // the base of a stand-in family is sometimes left to the server's own record
+    if names.len() > 2 && BUILTIN.iter().any(|b| b.0.as_bytes() == &names[0][..]) && rng.chance(1, 2) {
+        names.remove(0);
+    }
+    // registration order is arbitrary
+    for i in (1..names.len()).rev() {
+        let j = rng.below(i as u64 + 1) as usize;
+        names.swap(i, j);
+    }
+    let mut records: Vec<(Vec<u8>, [u8; 4])> = vec![];
+    for nm in names {
+        let a = loop {
+            let b = rng.bytes(4);
+            let a = [b[0], b[1], b[2], b[3]];
+            if !records.iter().any(|r| r.1 == a) && !BUILTIN.iter().any(|x| x.1 == a) {
+                break a;
+            }
+        };
+        records.push((nm, a));
+    }
+    records
+}
+
 fn gen(rng: &mut Rng, long_ok: bool) -> Case {
     let kind = rng.below(100);
+    let confusable = rng.chance(2, 5);
     let n_rec = rng.range(1, 6) as usize;
-    let mut records: Vec<(Vec<u8>, [u8; 4])> = vec![];
+    let mut records: Vec<(Vec<u8>, [u8; 4])> = if confusable { gen_confusable_records(rng, long_ok) } else { vec![] };
+    let n_rec = if confusable { records.len() + rng.below(2) as usize } else { n_rec };
     while records.len() < n_rec {
         let nm = gen_name(rng, long_ok);
         if records.iter().any(|r| r.0 == nm) || BUILTIN.iter().any(|b| b.0.as_bytes() == &nm[..]) {
@@ -836,6 +1040,15 @@ fn gen(rng: &mut Rng, long_ok: bool) -> Case {
                 1000 * (c as u64 / 8) + rng.below(2) * 700_000
             } else if same_instant { 1000 } else { *rng.pick(&[0u64, 1000, 1000, 5000, 20_000, 100_000, 400_000, 1_500_000]) + rng.below(3) * 500 };
             plan.push((c, at, rng.pick(&names).clone()));
+        }
+    }
+    if confusable {
+        // every name of a confusable set is asked for at least once (a collision of two records is
+        // visible only at the name that lost its record), at instants of their own
+        let missing: Vec<Vec<u8>> = records.iter().map(|r| r.0.clone()).filter(|nm| !plan.iter().any(|p| &p.2 == nm)).collect();
+        for (i, nm) in missing.into_iter().enumerate() {
+            let c = rng.below(clients as u64) as usize;
+            plan.push((c, 2_000 + i as u64 * 3_000 + rng.below(3) * 500, nm));
         }
     }
     let mut rogue = "none".to_string();
@@ -982,10 +1195,25 @@ pub fn run(args: &Args) {
     }
     let specs: Vec<String> = cases.iter().map(|c| c.to_lines().join("\n")).collect();
     let outcomes = run_cases(&args.prop, &specs, default_workers(), 20, 120);
+    // at most two listed failures per identity: the list is bounded, and the frequent recorded
+    // finding (listen backlog) must not crowd a new failure out of it
+    let mut seen: std::collections::HashMap<String, u32> = std::collections::HashMap::new();
     for (i, o) in outcomes.iter().enumerate() {
         out.begin_case(i as u64);
         match o {
-            CaseOutcome::Done(rep) => rep.emit(&mut out),
+            CaseOutcome::Done(rep) => {
+                let mut rep = rep.clone();
+                rep.fails.retain(|f| {
+                    let n = seen.entry(f.1.clone()).or_insert(0);
+                    *n += 1;
+                    if *n > 2 {
+                        out.count("oracle_failures");
+                        out.count("oracle_failures_not_listed");
+                    }
+                    *n <= 2
+                });
+                rep.emit(&mut out)
+            }
             died => emit_died(&cases[i], died, &mut out),
         }
         out.end_case();
